@@ -1,28 +1,20 @@
-(* Rawdb/AllocDisciplinedAll.v — tie between the allocator model and the crash monitor, part 4
-   (proof file): induction over histories.  PARTIAL: the step lemma is proved for the operations
-   listed in `covered_op`; see the comment there for what is missing. *)
+(* Rawdb/AllocDisciplinedAll.v — tie between the allocator model and the crash monitor, last part
+   (proof file): induction over histories.  The step lemma is proved for every operation of crash
+   traces (everything but Reopen / SetMinRegions), every outcome. *)
 From Anydb Require Import Common.Base Gen.Consts Rawdb.AMap Rawdb.Alloc Rawdb.AllocSpec Rawdb.AllocInv
   Rawdb.AllocFacts Rawdb.InvStep
-  Rawdb.Crash Rawdb.CrashFacts Rawdb.CrashInv Rawdb.CrashSound Rawdb.AllocEvents Rawdb.AllocDisciplined
-  Rawdb.AllocDisciplinedOps Rawdb.AllocDisciplinedSync.
+  Rawdb.Crash Rawdb.CrashFacts Rawdb.CrashInv Rawdb.CrashSound Rawdb.CrashCompact Rawdb.AllocEvents Rawdb.AllocDisciplined
+  Rawdb.AllocDisciplinedOps Rawdb.AllocDisciplinedSync Rawdb.AllocDisciplinedWObs Rawdb.AllocDisciplinedWrite
+  Rawdb.AllocDisciplinedSync2 Rawdb.AllocDisciplinedCompact Rawdb.AllocDisciplinedRetain.
 
 (* The operations for which the step lemma (monitor accepts the events of the step and the
-   coupling invariant Cpl is re-established) is proved:
-   - create_region_if_needed, truncate, rename, remove_region, drop of a handle, set_min_len and
-     Database::flush: every outcome;
-   - write / write_at / truncate_write, retain_regions, Region::flush, compact: only when the
-     request is refused (error returned with the state unchanged, or panic), i.e. NOT the
-     successful paths.  Missing: the instances of MS (AllocDisciplined.v) for the five paths of
-     write_with (MS_slot_update is already general enough: in-place growth and relocation), the
-     multi-slot variant of ms_sound for retain_regions, and the sync lemmas for Region::flush and
-     for the punches of compact (cpl_after_sync covers their metadata part);
-   - Reopen and SetMinRegions are not part of crash traces. *)
+   coupling invariant Cpl is re-established) is proved: every operation of crash traces, in every
+   outcome (all paths of write_with, every subset of punched candidates in compact, refused
+   requests and panics included).  Reopen and SetMinRegions are not part of crash traces. *)
 Definition covered_op (s : st) (o : op) : Prop :=
   match o with
-  | Create _ _ | Truncate _ _ | Rename _ _ | Remove _ | DropHandle _ | Flush | SetMinLen _ => True
-  | Write _ _ _ | WriteAt _ _ _ _ | TruncWrite _ _ _ _ | Retain _ | FlushRegion _ | Compact =>
-      (exists e, step s o = AErr s e) \/ step s o = APanic
   | Reopen | SetMinRegions _ => False
+  | _ => True
   end.
 
 Fixpoint covered_run (s : st) (ops : list op) : Prop :=
@@ -33,16 +25,19 @@ Fixpoint covered_run (s : st) (ops : list op) : Prop :=
 
 Theorem step_covered orc s o m : Inv s -> K m -> Cpl s m -> covered_op s o -> step_ok orc s o m.
 Proof.
-  intros HI HK HC Hc.
-  assert (Hrefused : (exists e, step s o = AErr s e) \/ step s o = APanic -> step_ok orc s o m).
-  { intros [[e E]|E]; [apply (ok_err orc s o m e HI HK HC E)|apply (ok_panic orc s o m HI HK HC E)]. }
-  destruct o; cbn [covered_op] in Hc; try (apply Hrefused; exact Hc); try destruct Hc.
+  intros HI HK HC Hc. destruct o; cbn [covered_op] in Hc; try destruct Hc.
   - apply ok_create; assumption.
+  - apply ok_write; assumption.
+  - apply ok_write_at; assumption.
+  - apply ok_trunc_write; assumption.
   - apply ok_truncate; assumption.
   - apply ok_rename; assumption.
   - apply ok_remove; assumption.
   - apply ok_drop; assumption.
+  - apply ok_retain; assumption.
   - apply ok_flush; assumption.
+  - apply ok_flush_region; assumption.
+  - apply ok_compact; assumption.
   - apply ok_set_min_len; assumption.
 Qed.
 
@@ -102,16 +97,71 @@ Proof.
   apply C05_model_disciplined_partial_proof. exact Hc.
 Qed.
 
-(* non-vacuity: remove, flush without dirty region (metadata sync, then promotion: fix f53a575),
-   reuse of the promoted extent by a new region whose metadata then reaches the regions file *)
+(* every history of crash operations is covered *)
+Lemma covered_of_crash_ops ops : forall s, forallb crash_op ops = true -> covered_run s ops.
+Proof.
+  induction ops as [|o t IH]; intros s H; cbn [covered_run forallb] in *; [exact I|].
+  apply andb_true_iff in H. destruct H as [H1 H2]. split; [|apply IH; exact H2].
+  destruct o; cbn [crash_op covered_op] in *; try exact I; discriminate.
+Qed.
+
+(* C05_model_disciplined, FULL: the monitor accepts the trace of EVERY history of the allocator
+   model, for every outcome of approx_has_punchable_data *)
+Theorem C05_model_disciplined_proof :
+  forall orcs min_len ops, forallb crash_op ops = true ->
+    snd (mon_run mon_init (trace_of_o orcs min_len ops)) = true.
+Proof.
+  intros orcs min_len ops H. apply C05_model_disciplined_partial_proof. apply covered_of_crash_ops. exact H.
+Qed.
+
+Theorem C05_all_histories_proof :
+  forall orcs min_len ops, forallb crash_op ops = true ->
+  forall t1 t2, trace_of_o orcs min_len ops = t1 ++ t2 ->
+    let m := fst (mon_run mon_init t1) in
+    forall sigma img, os_slots m sigma -> os_data m img ->
+      pairwise_disjoint (recovered m sigma) /\ inside_file m (recovered m sigma)
+      /\ match m_flushed m with
+         | Some (fl, fmem) =>
+             forall i w, assoc_get i fl = Some w -> mem_in (sr_id w) (m_touched m) = false ->
+               sigma i = Some w /\ forall a, sr_start w <= a < sr_start w + sr_len w -> img a = fmem a
+         | None => True
+         end.
+Proof.
+  intros orcs min_len ops H. apply C05_all_histories_partial_proof. apply covered_of_crash_ops. exact H.
+Qed.
+
+(* non-vacuity: writes (in place, relocation), renames, Region::flush, remove, compact, flush
+   without dirty region (metadata sync, then promotion: fix f53a575), retain_regions, reuse of the
+   promoted extent by a new region whose metadata then reaches the regions file *)
 Definition ex_history : list op :=
-  [ Create 1 false; Create 2 false; Rename 1 3; Rename 2 4; Flush; Remove 3; Flush;
-    Create 5 false; Create 6 false; Rename 6 7; Remove 4; SetMinLen 5000000; Flush; Rename 5 8; Flush ].
+  [ Create 1 false; Create 2 false; Write 1 (fun _ => 7) 100; Write 1 (fun _ => 7) 5000; Rename 1 3; Rename 2 4; Flush;
+    WriteAt 3 (fun _ => 9) 10 20; FlushRegion 3; Remove 3; Compact;
+    Create 5 false; Create 6 false; Rename 6 7; Remove 4; SetMinLen 5000000; Flush; Rename 5 8; Retain [8]; Flush ].
 
 Example ex_history_covered : covered_run (init 0) ex_history.
 Proof. vm_compute. repeat split. Qed.
 
+Example ex_history_crash_ops : forallb crash_op ex_history = true.
+Proof. reflexivity. Qed.
+
 Example ex_history_trace_nontrivial :
   existsb (fun e => match e with CMetaSync => true | _ => false end) (trace_of 0 ex_history) = true
-  /\ existsb (fun e => match e with CMeta 0 (Some (0, 0, 4096, 8)) => true | _ => false end) (trace_of 0 ex_history) = true.
-Proof. vm_compute. split; reflexivity. Qed.
+  /\ existsb (fun e => match e with CMeta 0 (Some (0, 0, 4096, 8)) => true | _ => false end) (trace_of 0 ex_history) = true
+  /\ existsb (fun e => match e with CPunch _ _ => true | _ => false end) (trace_of 0 ex_history) = true.
+Proof. vm_compute. repeat split; reflexivity. Qed.
+
+(* C12 on every history of the model, PARTIAL in one hypothesis: a punch of the model's trace is
+   disjoint from the content of every possibly-durable version of every slot, provided no
+   operation ids are current at that point.  (In the model's traces punches occur only inside
+   compact, whose COp names no id, so the hypothesis always holds; that structural fact about
+   trace_of_o is what is not proved here.) *)
+Theorem C12_all_histories_partial_proof :
+  forall orcs min_len ops, forallb crash_op ops = true ->
+  forall t1 off len t2, trace_of_o orcs min_len ops = t1 ++ CPunch off len :: t2 ->
+    let m := fst (mon_run mon_init t1) in
+    m_cur m = [] ->
+    forall i v, In (Some v) (possible m i) -> disjoint off len (sr_start v) (sr_len v) = true.
+Proof.
+  intros orcs min_len ops H t1 off len t2 E. apply (CrashCompact.C12_punch_safe_proof t1 off len t2).
+  rewrite <- E. apply C05_model_disciplined_proof. exact H.
+Qed.
